@@ -109,7 +109,7 @@ SPECIAL_URLS = [
     "HTTP://EXAMPLE.com:80/Path?Q=1#F", "https://example.com:443", "ws://h:80/", "wss://h:443/x", "ftp://h:21",
     "http://example.com", "http://example.com/", "http://example.com?q", "http://example.com#f", "http://example.com/?#",
     "http://example.com:80?q#f", "http://example.com./", "http://example.com..:80", "http://1.2.3.4./", "//h.",
-    "mailto:a@b.c", "tel:+1-201-555-0123", "urn:a:b", "a:b", "a:", ":a", "1a:b", "a+b-c.d:e", "c:/x", "c:\\x",
+    "a$b:c", "ht tp://h/", "a/b:c", "1http://h", "http+x://h/p", "mailto:a@b.c", "tel:+1-201-555-0123", "urn:a:b", "a:b", "a:", ":a", "1a:b", "a+b-c.d:e", "c:/x", "c:\\x",
     "file:///etc/passwd", "file://h/p", "file:/p", "foo:/p", "foo:p", "foo://", "foo:///", "foo://h", "foo://h/../x",
     "?q", "#f", "?", "#", "?#", "/?#", "a?b#c", "a#b?c", "//h?q", "//h#f", "//h?q#f", "//h/..", "//h/.", "//h/a/..",
     "http://h/a/../../b", "http://h/%2e%2e/b", "http://h/.%2e/b", "http://h/a/./.", "x/../y", "/x/../y", "../y",
@@ -729,6 +729,12 @@ def _dispatch(name, op, slots, args, kwargs):
         except TypeError:
             pass
         return None
+    if name == "subclass":
+        try:
+            type("Sub", (URL,), {})
+        except TypeError:
+            return "refused"
+        return "accepted"
     if name == "mutate_returned":
         # a caller scribbles on whatever an accessor handed out; containers that can be changed in
         # place must not be shared with the URL (or with other callers)
@@ -829,8 +835,16 @@ class Atoms:
             base = (sch + ":" if sch else "") + "//" + self.authority(rng)
             self.urls += [base, base + "/"]
 
+    FUZZ_ALPHABET = "a1b.-_~%:@[]!$&'()*+,;= \u00e9\u3002/?#\\0"
+
+    def fuzz(self, rng, lo=1, hi=8):
+        """A short random string over a delimiter-heavy alphabet (input-dimension sampling)."""
+        return "".join(rng.choice(self.FUZZ_ALPHABET) for _ in range(rng.randint(lo, hi)))
+
     def host(self, rng):
         if rng.random() < self.hostile:
+            if rng.random() < 0.25:
+                return self.fuzz(rng)
             return rng.choice(self.bad_hosts)
         return rng.choice(self.hosts)
 
@@ -840,6 +854,8 @@ class Atoms:
         return rng.choice(self.ports)
 
     def authority(self, rng):
+        if rng.random() < self.hostile * 0.3:
+            return self.fuzz(rng, 1, 10).replace("/", "").replace("?", "").replace("#", "")
         h = self.host(rng)
         if ":" in h and not h.startswith("["):
             h = "[" + h + "]"
@@ -996,7 +1012,7 @@ def gen_constructor(rng, at, live):
     return {"op": "build", "args": [], "kwargs": kw}
 
 
-def gen_derivation(rng, at, live):
+def gen_derivation(rng, at, live, slots=None):
     on = rng.choice(live)
     if rng.random() < 0.05:
         # another spelling of an equal value: '' vs '/' behind an authority, default port written out
@@ -1020,14 +1036,14 @@ def gen_derivation(rng, at, live):
     if r < 0.15:
         return {"op": "with_password", "on": on, "args": [5 if bad else rng.choice(at.passwords + [None])]}
     if r < 0.22:
-        return {"op": "with_host", "on": on, "args": [5 if bad else at.host(rng)]}
+        return {"op": "with_host", "on": on, "args": [5 if bad else ("" if rng.random() < 0.04 else at.host(rng))]}
     if r < 0.27:
         return {"op": "with_port", "on": on, "args": ["80" if bad else rng.choice([at.port(rng), None])]}
     if r < 0.34:
         kw = dict(kq)
         if rng.random() < 0.25:
             kw["encoded"] = rng.random() < 0.7
-        return {"op": "with_path", "on": on, "args": [rng.choice(at.paths)], "kwargs": kw}
+        return {"op": "with_path", "on": on, "args": [5 if bad else rng.choice(at.paths)], "kwargs": kw}
     if r < 0.54:
         name = rng.choice(["with_query", "extend_query", "update_query", "mod"])
         if name != "mod" and rng.random() < 0.2:
@@ -1040,6 +1056,8 @@ def gen_derivation(rng, at, live):
                 return {"op": name, "on": on, "args": [], "kwargs": kws}
         if rng.random() < 0.03:
             return {"op": name, "on": on, "args": [] if name != "mod" else ["a=1"], "kwargs": {}}
+        if name != "mod" and rng.random() < 0.03:
+            return {"op": name, "on": on, "args": [at.query_arg(rng, live)], "kwargs": {"a": "1"}}
         return {"op": name, "on": on, "args": [at.query_arg(rng, live)]}
     if r < 0.58:
         return {"op": "without_query_params", "on": on, "args": [rng.choice(at.qkeys) for _ in range(rng.randint(0, 2))]}
@@ -1059,7 +1077,14 @@ def gen_derivation(rng, at, live):
     if r < 0.90:
         if bad:
             return {"op": "join", "on": on, "args": [at.url_string(rng)]}
-        return {"op": "join", "on": on, "other": rng.choice(live), "args": []}
+        other = rng.choice(live)
+        if slots is not None and rng.random() < 0.6:
+            # RFC 3986 5.2 proper: an absolute base and a relative reference
+            rel = [i for i in live if i < len(slots) and is_url(slots[i]) and not shallow(slots[i])[1]]
+            absb = [i for i in live if i < len(slots) and is_url(slots[i]) and shallow(slots[i])[1]]
+            if rel and absb:
+                on, other = rng.choice(absb), rng.choice(rel)
+        return {"op": "join", "on": on, "other": other, "args": []}
     if r < 0.93:
         return {"op": "origin", "on": on, "args": []}
     if r < 0.96:
@@ -1139,6 +1164,8 @@ def gen_read(rng, live, slots=None):
         return {"op": "query_mutate", "on": on, "args": []}
     if r < 0.91:
         return {"op": "setattr", "on": on, "args": [rng.choice(["host", "_val", "scheme", "x", "path"]), "zz"]}
+    if r < 0.915:
+        return {"op": "subclass", "on": on, "args": []}
     if r < 0.925:
         return {"op": "mutate_returned", "on": on, "args": [rng.choice(["parts", "raw_parts", "suffixes", "raw_suffixes", "query"])]}
     order = list(ALL_READS)
